@@ -450,6 +450,7 @@ func (w *SrvWorld) drainEvents() {
 				}
 				w.gates = append(w.gates, &gate{rid: ev.rid, name: ev.name, ch: ev.gate, open: w.plan.GateMode == "open"})
 				w.EntrySeq = append(w.EntrySeq, fmt.Sprintf("%d enter %d", w.sim.Steps, ev.rid))
+				w.sim.Obs(fmt.Sprintf("enter %d %s %s %d", ev.rid, ev.snap.Method, ev.snap.URI, len(ev.snap.Body)))
 			case "exit":
 				w.Gauge--
 				w.Exits[ev.rid]++
@@ -490,6 +491,7 @@ func (w *SrvWorld) peerReceive() {
 		f.At = w.sim.Steps
 		w.Frames = append(w.Frames, f)
 		w.sim.Logf("peer<< %s", f)
+		w.sim.Obs(f.String())
 		w.onPeerFrame(f)
 		if w.onFrame != nil {
 			w.onFrame(w, f)
@@ -640,11 +642,14 @@ func (w *SrvWorld) flushCtl() {
 
 // ledgerCheck is the C06 running inequality, evaluated on the server's output in order.
 func (w *SrvWorld) ledgerCheck(ps *PeerStream, f *Frame) {
-	if w.LedgerViol != nil {
+	if w.LedgerViol != nil && !strings.HasSuffix(w.LedgerViol.Sig, "/after-acked-decrease") {
 		return
 	}
 	mk := func(rule, d string) {
-		w.LedgerViol = &Violation{Property: "C06", Rule: rule, Sig: rule, Detail: fmt.Sprintf("stream %d, DATA frame #%d of the connection (len %d): %s", ps.ID, f.Seq, f.Len, d)}
+		if w.LedgerViol != nil && strings.HasSuffix(rule, "/after-acked-decrease") {
+			return // keep the first one of this kind; only a different kind replaces it
+		}
+		w.LedgerViol = &Violation{Property: "C06", Rule: strings.SplitN(rule, "/", 2)[0], Sig: rule, Detail: fmt.Sprintf("stream %d, DATA frame #%d of the connection (len %d): %s", ps.ID, f.Seq, f.Len, d)}
 	}
 	if int64(f.Len) > w.permissiveMaxFrame() {
 		mk("frame-too-large", fmt.Sprintf("payload exceeds the peer's SETTINGS_MAX_FRAME_SIZE %d", w.permissiveMaxFrame()))
@@ -659,7 +664,20 @@ func (w *SrvWorld) ledgerCheck(ps *PeerStream, f *Frame) {
 	}
 	allowed := w.permissiveInit() + w.streamWupd[ps.ID]
 	if ps.RecvBytes > allowed {
-		mk("stream-window-overrun", fmt.Sprintf("stream total %d > granted %d (initial %d in the most permissive reading + WINDOW_UPDATEs %d)", ps.RecvBytes, allowed, w.permissiveInit(), w.streamWupd[ps.ID]))
+		// discriminator: would the frame have been legal under the largest initial window the peer ever
+		// advertised? then it can only be explained by a SETTINGS decrease that was acknowledged before it
+		// was applied; otherwise the window arithmetic itself is wrong.
+		maxEver := int64(65535)
+		for _, v := range w.peerSettingsVals {
+			if v.hasInit && v.init > maxEver {
+				maxEver = v.init
+			}
+		}
+		kind := "plain"
+		if ps.RecvBytes <= maxEver+w.streamWupd[ps.ID] && w.ackedSettings > 1 {
+			kind = "after-acked-decrease"
+		}
+		mk("stream-window-overrun/"+kind, fmt.Sprintf("stream total %d > granted %d (initial %d in the most permissive reading + WINDOW_UPDATEs %d); %d of the peer's SETTINGS acknowledged so far", ps.RecvBytes, allowed, w.permissiveInit(), w.streamWupd[ps.ID], w.ackedSettings))
 		return
 	}
 	if w.connRecv == w.connGranted || ps.RecvBytes == allowed {
